@@ -848,7 +848,12 @@ def judge_specs(ctx, dirs, bases, real_bin, listing_exe):
                           "expected": "the same set of device nodes (each rotation puts another entry first; --all-keyboards and --dev-file open the first selected node, --auto-all-keyboards all of them)",
                           "note": note})
         st["all_vs_auto"] += 1
-        if not (u_all <= set(auto)) or (complete and u_all != set(auto)):
+        # each rotation puts another entry first; when the program lists devices in an order of its own (C16 does not
+        # constrain the order) the rotations always open the same node and say nothing about the others
+        steering = len(u_all) >= 2 or len(set(auto)) <= 1
+        if complete and not steering and u_all <= set(auto):
+            st["rotations_not_steering"] = st.get("rotations_not_steering", 0) + 1
+        if not (u_all <= set(auto)) or (complete and steering and u_all != set(auto)) or (bool(u_all) != bool(set(auto)) and complete):
             hit("all-keyboards vs auto-all-keyboards", "--all-keyboards (over the rotations of the device list) and --auto-all-keyboards open different devices on the same system with the same patterns")
         why = None
         sysfs = re.findall(r"^S: Sysfs=(.*)$", spec.get("text", ""), re.M)
